@@ -443,6 +443,31 @@ class Program:
     # is resolved by the rule that owns the table; a call through any other computed callable is something no engine here resolves
     KNOWN_TABLES = ("_mappings", "_validation_mappings", "EXTRACTORS", "VERSION_MAPPING", "TYPE_MAPPING", "ELEMENT_FACTORY", "chunk_error_mapping")
 
+    def _resolvable_local_callee(self, fn, name):
+        """every binding of the local is a plain `x = <path>` (a function, bound method or class named by a dotted path, possibly chosen by a
+        conditional expression) or a lookup in one of the known dispatch tables - what the call-graph engine resolves"""
+        def ok(v):
+            if isinstance(v, ast.IfExp):
+                return ok(v.body) and ok(v.orelse)
+            p = v
+            while isinstance(p, ast.Attribute):
+                p = p.value
+            if isinstance(p, ast.Name) and isinstance(v, (ast.Name, ast.Attribute)):
+                return True
+            base = None
+            if isinstance(v, ast.Subscript):
+                base = v.value
+            elif isinstance(v, ast.Call) and isinstance(v.func, ast.Attribute) and v.func.attr == "get":
+                base = v.func.value
+            term = base.attr if isinstance(base, ast.Attribute) else (base.id if isinstance(base, ast.Name) else None)
+            return term in self.KNOWN_TABLES
+        binds = []
+        for n in ast.walk(fn.node):
+            if isinstance(n, ast.Name) and n.id == name and isinstance(n.ctx, ast.Store):
+                binds.append(n)
+        plain = [n for n in ast.walk(fn.node) if isinstance(n, ast.Assign) and len(n.targets) == 1 and isinstance(n.targets[0], ast.Name) and n.targets[0].id == name]
+        return len(plain) == len(binds) and all(ok(a.value) for a in plain)
+
     def _refuse_computed_callees(self, fn):
         """An anchor function that calls something taken from a table or computed on the spot (`TABLE[k](x)`, `D.get(k)(x)`, `next(gen)()`): the call
         graph, effect and exception engines do not see what runs there, so no verdict about the function can be trusted - undecided, not a finding."""
@@ -455,7 +480,8 @@ class Program:
                 assigned.add(n.id)
         nested = {n.name for n in ast.walk(fn.node) if isinstance(n, (ast.FunctionDef, ast.AsyncFunctionDef, ast.ClassDef)) and n is not fn.node}
         for n in ast.walk(fn.node):
-            if isinstance(n, ast.Call) and isinstance(n.func, ast.Name) and n.func.id in assigned and n.func.id not in nested:
+            if isinstance(n, ast.Call) and isinstance(n.func, ast.Name) and n.func.id in assigned and n.func.id not in nested \
+                    and not self._resolvable_local_callee(fn, n.func.id):
                 # a local variable called as a function: whatever was put into it
                 raise AnalysisError(f"{fn.qualname}: `{norm(n)[:60]}` calls the value of a local variable; what runs there is not resolved (idiom not understood, UNDECIDED)")
             if isinstance(n, ast.Call) and isinstance(n.func, (ast.Subscript, ast.Call)):
